@@ -514,7 +514,7 @@ def probe_clone_namespace():
     return p()
 
 
-FENCE_KEYS = {}
+FENCE_KEYS = {"non-integer-position-fails-late": "bad_position"}
 def probe_identifier_default():
     old = sdn.namespace_manager.default
     sdn.namespace_manager.default = "DEFAULT"
@@ -528,5 +528,6 @@ def probe_identifier_default():
         sdn.namespace_manager.default = old
 
 
-PROBES = {"clone-not-registered-in-namespace": probe_clone_namespace,
+PROBES = {"non-integer-position-fails-late": lambda: gen_ops.probe_bad_position("name"),
+          "clone-not-registered-in-namespace": probe_clone_namespace,
           "identifier-lookup-under-default-policy": probe_identifier_default}
